@@ -140,6 +140,41 @@ theorem attr_dispatch (c : List Level) (hwf : wf c = true) (hc : compiles c = tr
 
 example : attrAt ex3 1 ['a'] = some 7 ∧ attrAt ex3 0 ['a'] = none := by decide
 
+/-- obligation on the regenerated fact (tools/regen_nsattrs.py): `_NSAttr` keeps a reference to its namespace and
+`_NSAttr.__getattr__` walks `.inherits` when it is called, testing `hasattr(ns.module, key)` - exactly what
+`NSAttr.read`/`nsattrF` transcribe.  A copy of the chain taken at construction, or another test than `hasattr`,
+makes this fail. -/
+theorem nsattr_walks_at_call_time : Generated.NsAttrs.nsAttrWalksAtCallTime = true := by decide
+
+/-- **attribute reads follow the chain as it is when they are made** (a history of "attach a parent; read" steps).
+While the inherit phase runs, the heap after `k` templates are attached is `builtHeap k` and attaching the next
+one gives `builtHeap (k+1)`; a read `ns_j.attr.x` made at that time - e.g. by the expression of a dynamic
+`<%inherit>` of a middle template - through an `_NSAttr` object created at any earlier or the same time (the
+object is only the reference `j`) answers with the least level `i`, `j ≤ i < k`, having the attribute. -/
+theorem attr_read_during_build (c : List Level) (k : Nat) (hk : 0 < k) (j : Nat) (x : Name) :
+    linkStep k (builtHeap k) (k - 1) = .ok (builtHeap (k + 1), k) ∧
+    (nsAttrObj j).read c (builtHeap k) x = firstAttrUpTo c k j x := by
+  refine ⟨linkStep_built k hk, ?_⟩
+  simp only [NSAttr.read, nsAttrObj, builtHeap_nss_length]
+  exact nsattrF_prefix c k x k j (by omega)
+
+example : firstAttrUpTo ex3 1 0 ['a'] = none ∧ firstAttrUpTo ex3 2 0 ['a'] = some 7 := by decide
+
+/-- ... and once the chain is complete every read sees the whole chain: whichever `_NSAttr` object is used
+(created before, during or after the inherit phase - `Namespace.attr` is memoized, but the object holds no copy
+of the chain) and whatever was read before (a read returns a value and changes nothing), `o.read` is the
+attribute of the least level from `o.parent` to the base that has one. -/
+theorem attr_read_after_build (c : List Level) (hwf : wf c = true) (hc : compiles c = true) (h : Heap)
+    (callable : Nat × Nat) (hb : populateSelf c = .ok (h, callable)) (o : NSAttr) (x : Name) :
+    o.read c h x = firstAttr c o.parent x := by
+  rw [populateSelf_built c hwf hc] at hb
+  simp only [Except.ok.injEq, Prod.mk.injEq] at hb
+  rw [← hb.1]
+  simp only [NSAttr.read, builtHeap_nss_length]
+  exact nsattrF_built c x c.length o.parent (by omega)
+
+example : firstAttr ex3 0 ['a'] = some 7 := by decide
+
 /-- the defect: a def named `uri` is declared by the only template of the chain, yet `self.uri` is not it -/
 theorem member_dispatch_counterexample :
     let c : List Level := [{ nodes := [.defn ['u', 'r', 'i'] [] [.text 1]] }]
